@@ -155,6 +155,33 @@ mut('C02', 'worker_failure_not_recorded_in_run_error', S, """							node.setStat
 							node.setErr(execErr)
 							sc.setLastError(execErr)""", """							node.setStatus(NodeStatusError)
 							node.setErr(execErr)""")
+mut('C12', 'setup_no_longer_rearms_teardown', N, """	n.done = false
+
+	// Set the log file path""", """	// Set the log file path""")
+mut('C12', 'teardown_skips_stdout_writer', N, """	for _, w := range []*bufio.Writer{n.logWriter, n.stdoutWriter} {""", """	for _, w := range []*bufio.Writer{n.logWriter} {""")
+mut('C12', 'teardown_flushes_only_when_log_file_set', N, """		if w != nil {
+			if err := w.Flush(); err != nil {""", """		if w != nil && n.stderrFile != nil {
+			if err := w.Flush(); err != nil {""")
+mut('C12', 'teardown_disarmed_by_default', N, """	if n.done {
+		return nil
+	}
+	n.logLock.Lock()""", """	if n.done || n.data.State.RetryCount > 0 {
+		return nil
+	}
+	n.logLock.Lock()""")
+mut('C12', 'stdout_file_replaces_log', N, """		stdout = io.MultiWriter(n.logWriter, n.stdoutWriter)""", """		stdout = n.stdoutWriter""")
+mut('C12', 'stderr_not_wired_without_stderr_file', N, """	if n.stderrWriter != nil {
+		cmd.SetStderr(n.stderrWriter)
+	} else {
+		cmd.SetStderr(stdout)
+	}""", """	if n.stderrWriter != nil {
+		cmd.SetStderr(n.stderrWriter)
+	} else {
+		cmd.SetStderr(io.Discard)
+	}""")
+mut('C12', 'output_capture_replaces_log', N, """		stdout = io.MultiWriter(stdout, n.outputWriter)""", """		stdout = n.outputWriter""")
+mut('C12', 'log_opened_under_other_name', N, """	n.logFile, err = util.OpenOrCreateFile(n.data.State.Log)""", """	n.logFile, err = util.OpenOrCreateFile(n.data.State.Log + ".tmp")""")
+mut('C12', 'stdout_writer_over_log_file', N, """		n.stdoutWriter = bufio.NewWriter(n.stdoutFile)""", """		n.stdoutWriter = bufio.NewWriter(n.logFile)""")
 mut('C12', 'worker_teardown_calls_removed', S, """				defer func() {
 					_ = sc.teardownNode(node)
 				}()
